@@ -43,6 +43,16 @@ fn main() {
                 *WHERE.lock().unwrap_or_else(|e| e.into_inner()) = format!("{}:{}", l.file(), l.line());
             }
         }
+        if !on_main {
+            if let Some(l) = info.location() {
+                let f = l.file();
+                if ["/varlink/src/", "/varlink_parser/src/", "/varlink_generator/src/", "/varlink_stdinterfaces/src/"].iter().any(|d| f.contains(d)) {
+                    if util::LIB_PANICS.fetch_add(1, std::sync::atomic::Ordering::SeqCst) == 0 {
+                        *util::LIB_PANIC_FIRST.lock().unwrap_or_else(|e| e.into_inner()) = format!("{}:{}: {}", f, l.line(), info);
+                    }
+                }
+            }
+        }
         eprintln!("{}", info);
     }));
     let sub = args[1].clone();
